@@ -1,0 +1,21 @@
+//go:build verif
+
+package server
+
+import "fmt"
+
+// Verification hook for the HTTP tile-path rewrite (property C16).
+
+// VerifMvtFilterHTTPArgs calls mvtFilterHTTPArgs on a one-argument HTTP message
+// and reports whether the message was rewritten, its arguments afterwards, and
+// the run-time panic of the call, if any.
+func VerifMvtFilterHTTPArgs(path, query string) (modified bool, args []string, panicked string) {
+	defer func() {
+		if r := recover(); r != nil {
+			modified, args, panicked = false, nil, fmt.Sprint(r)
+		}
+	}()
+	msg := &Message{Args: []string{path}, ConnType: HTTP, OutputType: JSON}
+	modified = mvtFilterHTTPArgs(msg, query)
+	return modified, append([]string(nil), msg.Args...), ""
+}
